@@ -24,7 +24,7 @@ def run(ctx):
     plan += ";extall:2,2,2;ext:3,3,2:%d;ext:4,3,3:%d" % ((25, 6) if quick else (300, 80))
     solids.judge_stage(ctx, "voxel", ["c07-voxel", "kinds=collider", "plan=" + plan, "rays=%d" % (40 if quick else 80),
                                       "spheres=%d" % (24 if quick else 48)],
-                       {"panic", "scan", "count", "hits", "first", "parity", "sphere", "segment", "contains"},
+                       {"panic", "scan", "count", "hits", "first", "parity", "sphere", "segment", "contains", "concurrent"},
                        judge="geom/VoxelJudge", timeout=3000)
     import c07_prims
     c07_prims.run(ctx)
